@@ -10,7 +10,7 @@ ElemDtype(v) == IF Tag(v) = "s" THEN <<"U", Len(v[2])>> ELSE DtypeFromElement(v)
 
 (* a labelled Series value re-indexed to the target labels with NaN where it lacks a label *)
 ReindexedVals(val, target) == [i \in 1..Len(target) |-> LET p == Find(val[2], target[i]) IN IF p < 0 THEN NaN ELSE At(val[3], p)]
-ReindexedDtype(val, target) == IF Len(target) > 0 /\ \A i \in 1..Len(target) : Member(val[2], target[i]) THEN val[4] ELSE Resolve(val[4], DtF64)
+ReindexedDtype(val, target) == IF (Len(target) > 0 \/ Len(val[2]) = 0) /\ \A i \in 1..Len(target) : Member(val[2], target[i]) THEN val[4] ELSE Resolve(val[4], DtF64)          \* an empty value re-indexed to an empty target is itself
 
 (* Series.assign *)
 SeriesAssign(s, r, val) ==
